@@ -1,0 +1,31 @@
+//go:build verif
+
+// Contracts for package ammo (decoded HTTP ammo), checked by /verif/govc. Comment-only: no code.
+package ammo
+
+//@ func (a *Ammo) Setup
+//@ props C07 C09
+//@ ensures [stores-exactly-what-was-decoded] imp(result == nil, a.method == method && a.url == url && a.body == body && a.tag == tag && a.header == header)
+//@ ensures [rejects-without-effect] imp(result != nil, a.method == old(a.method) && a.url == old(a.url) && a.body == old(a.body) && a.tag == old(a.tag) && a.header == old(a.header))
+//@ modifies a.method, a.body, a.url, a.tag, a.header
+
+//@ func (a *Ammo) Reset
+//@ props C07
+//@ ensures a.method == "" && a.url == "" && len(a.body) == 0 && a.tag == "" && a.header == nil
+//@ modifies a.method, a.body, a.url, a.tag, a.header
+
+//@ func (a *Ammo) Tag
+//@ props C07 C14
+//@ modifies nothing
+//@ ensures result == a.tag
+
+//@ func (a *RawAmmo) Setup
+//@ props C07 C09
+//@ ensures [stores-exactly-what-was-decoded] a.buff == buff && a.tag == tag && a.filePosition == filePosition
+//@ ensures [own-copy-of-the-configured-headers] imp(header != nil, fresh(a.commonHeaders)) && forall_t(k, string, has(a.commonHeaders, k) == has(header, k) && a.commonHeaders[k] == header[k])
+//@ modifies a.buff, a.tag, a.filePosition, a.commonHeaders
+
+//@ func (a *RawAmmo) Tag
+//@ props C07 C14
+//@ modifies nothing
+//@ ensures result == a.tag
